@@ -12,7 +12,18 @@ case = {id, f, op, tgt, pre, a, b, c, intrep, tree}
 out = {"o":"value","res":wire,"after":wire} | eval outcome (syntax / jserror / host / hang ...)
 """
 from harness import wire
-from harness.drivers import wire_to_py
+from harness.drivers import wire_to_py as _wire_to_py
+
+
+def wire_to_py(w, intrep=False):
+    """like harness.drivers.wire_to_py, but an integer-valued number of magnitude <= 2^53 becomes a host int under intrep
+    (the lexer produces host ints for such literals; JsOpsAsIs!DIntValued is the same rule)"""
+    if w["k"] == "num" and intrep:
+        x = wire.words_dbl(w["w"])
+        if x == x and abs(x) <= 2.0 ** 53 and x == int(x) and not (x == 0 and str(x)[0] == "-"):
+            return int(x)
+        return x
+    return _wire_to_py(w, False)
 
 JS_OP = {"neg": "-", "pos": "+"}
 
@@ -95,7 +106,7 @@ def run_case(case, api):
         if nm in case and case[nm] is not None:
             setv("__" + nm, case[nm], intrep)
     src = render(case, setv)
-    out = api.eval_outcome(ctx, src, wall=20.0, cap=200_000)
+    out = api.eval_outcome(ctx, src, wall=case.get("wall", 3.0), cap=200_000)
     if out["o"] == "value":
         if len(got) != 1 or len(got[0]) != 2:
             out = {"o": "host", "type": "NoOutcome", "where": "driver", "msg": "got %d outputs" % len(got)}
